@@ -864,7 +864,7 @@ class Explorer(object):
 
     def _const_load(self, addr, st, want_unknown=False):
         """the value read from an element of a constant global table when every index on the way is known on this path
-        (want_unknown: instead, (index value, dimension) when exactly one index is unknown and its dimension is at most 8)"""
+        (want_unknown: instead, (index value, dimension) when exactly one index is unknown and its dimension is at most 16)"""
         unknown = []
         steps = []
         a = addr
@@ -882,7 +882,7 @@ class Explorer(object):
                 if '_tree' not in g:
                     from .ir import const_tree
                     try:
-                        g['_tree'] = const_tree(g['ty'], g['init'])
+                        g['_tree'] = const_tree(g['ty'], g['init'], getattr(m, 'structs', None))
                     except Exception:
                         g['_tree'] = None
                 tree, mod = g['_tree'], m
@@ -900,7 +900,7 @@ class Explorer(object):
                     while w[0] == 'bin' and w[1] in ('sext', 'zext', 'trunc'):
                         w = w[2]
                     k = w[1] if is_const(w) else st.known.get(w)
-                if k is None and want_unknown and len(tree) <= 8:
+                if k is None and want_unknown and len(tree) <= 16:
                     unknown.append((w, len(tree)))
                     k = 0
                 if k is None or not (0 <= k < len(tree)):
